@@ -83,6 +83,8 @@ Exp(S, e) ==
     [] e.op = "b_from_owner" ->
          IF Mode(e) = 1 THEN Panics ELSE Res("ok", n :> Data(e), {})
     [] e.op \in {"b_clone", "m_clone"} -> Res("ok", n :> v, {})
+    \* Clone::clone_from: the target takes the source's value; the source and everything else stay
+    [] e.op = "b_clone_from" -> IF Oth(e) \in DOMAIN S.val THEN Res("ok", h :> S.val[Oth(e)], {}) ELSE Same
     [] e.op = "b_slice" ->
          LET be == SliceBounds(e, len) IN
          IF be[2] >= 0 /\ be[1] <= be[2] /\ be[2] <= len
@@ -172,7 +174,7 @@ SameAddr(p, q) == \/ (p.a = q.a /\ p.off = q.off)
                   \/ (p.a2 # 0 /\ p.a2 = q.a /\ p.off2 = q.off)
 
 \* handles the call may legitimately change
-Touched(e) == {e.h, Oth(e)} \cup RangeOf(e.out.new)
+Touched(e) == {e.h} \cup (IF e.op = "b_clone_from" THEN {} ELSE {Oth(e)}) \cup RangeOf(e.out.new)
 
 OthersUnchanged(S, e, obs) ==
   LET bad == {h \in (DOMAIN obs \cap DOMAIN S.view) \ Touched(e) :
@@ -278,6 +280,8 @@ ZeroCopy(S, e, k, obs) ==
       known == p.a # -100
   IN
   CASE e.op = "b_clone" -> noalloc \cup addr(r.len = 0 \/ At(r, p.a, p.off))
+    [] e.op = "b_clone_from" ->
+         IF Oth(e) \in DOMAIN S.view THEN noalloc \cup addr(q.len = 0 \/ At(q, S.view[Oth(e)].a, S.view[Oth(e)].off)) ELSE {}
     [] e.op = "b_slice" ->
          LET be == SliceBounds(e, p.len) IN noalloc \cup addr(r.len = 0 \/ At(r, p.a, p.off + be[1]))
     [] e.op = "b_slice_ref" ->
@@ -329,6 +333,15 @@ UniqueLaws(S, e, k, obs, led2) ==
      \cup (IF f3 THEN {<<"C08", "uniq_true_when_sole">>} ELSE {})
      \cup (IF e.op = "b_try_into_mut" /\ k = "ok" /\ e.h \in DOMAIN S.view /\ (Ret(e) = 1) # S.view[e.h].u
            THEN {<<"C08", "try_into_mut_iff_unique">>} ELSE {})
+     \* "... and then returns the same memory": the BytesMut a unique handle turns into lies where
+     \* the handle's bytes were, and the conversion gives no byte buffer back to the allocator
+     \* (an empty unique handle still owns its allocation and hands it on)
+     \cup (IF /\ e.op = "b_try_into_mut" /\ k = "ok" /\ e.h \in DOMAIN S.view /\ Ret(e) = 1 /\ S.view[e.h].u /\ HasNew(e)
+              /\ LET p == S.view[e.h]
+                     r == IF New1(e) \in DOMAIN obs THEN obs[New1(e)] ELSE p
+                 IN \/ (p.len > 0 /\ ~At(r, p.a, p.off))
+                    \/ \E m \in FreesOf(e) : m.id \in DOMAIN S.led /\ S.led[m.id].align = 1 /\ S.led[m.id].org = 1
+           THEN {<<"C08", "try_into_mut_same_memory">>} ELSE {})
      \cup (IF /\ e.op \in {"m_try_reclaim", "m_reserve"} /\ k = "ok" /\ e.h \in DOMAIN S.view
               /\ LET p == S.view[e.h] IN
                    /\ p.len = 0 /\ p.a > 0 /\ p.a \in DOMAIN S.led /\ S.led[p.a].live
